@@ -25,19 +25,19 @@ Thr == {Log[i].t : i \in {j \in 1..Len(Log) : "t" \in DOMAIN Log[j]}} \cup {Log[
 Tags == {Log[i].tag : i \in {j \in 1..Len(Log) : "tag" \in DOMAIN Log[j]}}
 
 VARIABLES cap,
-          arrived, disab, cur, closedAt, ovfSeen, maxBacklog,  \* C03 per session
+          arrived, arrDone, disab, cur, closedAt, ovfSeen, maxBacklog,  \* C03 per session
           pendRecv, pendFlush,                                  \* calls in flight: sets of <<t, s>>
           handed, conn, engConn, onBehalf, willOk,              \* C04
           obsOf, obsIdx, obsSt, nObs, dataTag, dataPre,         \* C02 registration state
           stage, seen, mustObs, annAtClose,                     \* C02 per-session close progress
           lifeCalled
-vars == <<l, cap, arrived, disab, cur, closedAt, ovfSeen, maxBacklog, pendRecv, pendFlush, handed, conn, engConn, onBehalf,
+vars == <<l, cap, arrived, arrDone, disab, cur, closedAt, ovfSeen, maxBacklog, pendRecv, pendFlush, handed, conn, engConn, onBehalf,
           willOk, obsOf, obsIdx, obsSt, nObs, dataTag, dataPre, stage, seen, mustObs, annAtClose, lifeCalled>>
 
 FS(v) == [s \in Sess |-> v]
 NoConn == [st |-> "idle", to |-> 0, vt |-> 0, sid |-> -1]
 Canon(c) == /\ cap' = c
-            /\ arrived' = FS(0) /\ disab' = FS({}) /\ cur' = FS(0) /\ closedAt' = FS(-1) /\ ovfSeen' = FS(FALSE) /\ maxBacklog' = FS(0)
+            /\ arrived' = FS(0) /\ arrDone' = FS(0) /\ disab' = FS({}) /\ cur' = FS(0) /\ closedAt' = FS(-1) /\ ovfSeen' = FS(FALSE) /\ maxBacklog' = FS(0)
             /\ pendRecv' = {} /\ pendFlush' = {}
             /\ handed' = {} /\ conn' = [t \in Thr |-> NoConn] /\ engConn' = {} /\ onBehalf' = {} /\ willOk' = {}
             /\ obsOf' = [g \in Tags |-> -1] /\ obsIdx' = [g \in Tags |-> 0] /\ obsSt' = [g \in Tags |-> "none"] /\ nObs' = 0
@@ -45,7 +45,7 @@ Canon(c) == /\ cap' = c
             /\ stage' = FS("none") /\ seen' = FS(<<>>) /\ mustObs' = FS({}) /\ annAtClose' = FS(FALSE)
             /\ lifeCalled' = FALSE
 Init == /\ l = 1 /\ cap = 0
-        /\ arrived = FS(0) /\ disab = FS({}) /\ cur = FS(0) /\ closedAt = FS(-1) /\ ovfSeen = FS(FALSE) /\ maxBacklog = FS(0)
+        /\ arrived = FS(0) /\ arrDone = FS(0) /\ disab = FS({}) /\ cur = FS(0) /\ closedAt = FS(-1) /\ ovfSeen = FS(FALSE) /\ maxBacklog = FS(0)
         /\ pendRecv = {} /\ pendFlush = {}
         /\ handed = {} /\ conn = [t \in Thr |-> NoConn] /\ engConn = {} /\ onBehalf = {} /\ willOk = {}
         /\ obsOf = [g \in Tags |-> -1] /\ obsIdx = [g \in Tags |-> 0] /\ obsSt = [g \in Tags |-> "none"] /\ nObs = 0
@@ -55,7 +55,7 @@ Init == /\ l = 1 /\ cap = 0
 EvReset == IsEv("Reset") /\ Canon(0)
 EvBegin == IsEv("Begin") /\ Canon(Ev.cap)
 
-C03U == UNCHANGED <<arrived, disab, cur, closedAt, ovfSeen, maxBacklog, pendRecv, pendFlush>>
+C03U == UNCHANGED <<arrived, arrDone, disab, cur, closedAt, ovfSeen, maxBacklog, pendRecv, pendFlush>>
 C04U == UNCHANGED <<handed, conn, engConn, onBehalf, willOk>>
 C02U == UNCHANGED <<obsOf, obsIdx, obsSt, nObs, dataTag, dataPre, stage, seen, mustObs, annAtClose>>
 Keep == UNCHANGED <<cap, lifeCalled>>
@@ -66,8 +66,10 @@ EvArriveCall == /\ IsEv("ArriveCall") /\ Ev.from = arrived[Ev.s] /\ Ev.to > Ev.f
                 /\ arrived' = [arrived EXCEPT ![Ev.s] = Ev.to]
                 /\ disab' = IF Ev.dis THEN [disab EXCEPT ![Ev.s] = @ \cup (Ev.from..(Ev.to - 1))] ELSE disab
                 /\ maxBacklog' = [maxBacklog EXCEPT ![Ev.s] = Max2(@, Ev.to - cur[Ev.s])]
-                /\ UNCHANGED <<cur, closedAt, ovfSeen, pendRecv, pendFlush>> /\ C04U /\ C02U /\ Keep
-EvArriveRet == IsEv("ArriveRet") /\ C03U /\ C04U /\ C02U /\ Keep
+                /\ UNCHANGED <<arrDone, cur, closedAt, ovfSeen, pendRecv, pendFlush>> /\ C04U /\ C02U /\ Keep
+\* the engine's delivery call has returned: these bytes are now buffered, delivered or (legitimately) dropped
+EvArriveRet == /\ IsEv("ArriveRet") /\ arrDone' = [arrDone EXCEPT ![Ev.s] = arrived[Ev.s]]
+               /\ UNCHANGED <<arrived, disab, cur, closedAt, ovfSeen, maxBacklog, pendRecv, pendFlush>> /\ C04U /\ C02U /\ Keep
 
 \* bytes [from, to) of session s are handed to the application
 HandOk(s, from, to) == /\ from < to /\ from >= cur[s] /\ to <= arrived[s]
@@ -78,10 +80,12 @@ AllHanded(s, upto) == \A b \in cur[s]..(upto - 1) : b \in disab[s]
 
 EvData == /\ IsEv("Data") /\ HandOk(Ev.s, Ev.from, Ev.to) /\ ~Ev.as
           /\ cur' = [cur EXCEPT ![Ev.s] = Ev.to]
-          /\ UNCHANGED <<arrived, disab, closedAt, ovfSeen, maxBacklog, pendRecv, pendFlush>> /\ C04U /\ C02U /\ Keep
+          /\ UNCHANGED <<arrived, arrDone, disab, closedAt, ovfSeen, maxBacklog, pendRecv, pendFlush>> /\ C04U /\ C02U /\ Keep
 
-EvRecvCall == /\ IsEv("RecvCall") /\ pendRecv' = pendRecv \cup {<<Ev.t, Ev.s, Ev.len, Ev.to, Ev.vt>>}
-              /\ UNCHANGED <<arrived, disab, cur, closedAt, ovfSeen, maxBacklog, pendFlush>> /\ C04U /\ C02U /\ Keep
+\* the 6th component remembers whether deliverable bytes were already sitting in the buffer when the call began
+Waiting(s) == \E b \in cur[s]..(arrDone[s] - 1) : b \notin disab[s]
+EvRecvCall == /\ IsEv("RecvCall") /\ pendRecv' = pendRecv \cup {<<Ev.t, Ev.s, Ev.len, Ev.to, Ev.vt, Waiting(Ev.s)>>}
+              /\ UNCHANGED <<arrived, arrDone, disab, cur, closedAt, ovfSeen, maxBacklog, pendFlush>> /\ C04U /\ C02U /\ Keep
 MyRecv == CHOOSE r \in pendRecv : r[1] = Ev.t /\ r[2] = Ev.s
 EvRecvRet ==
     /\ IsEv("RecvRet") /\ \E r \in pendRecv : r[1] = Ev.t /\ r[2] = Ev.s
@@ -96,23 +100,26 @@ EvRecvRet ==
          [] Ev.res = "BufferOverflow" ->   \* distinct, and only when the cap could have been exceeded
               /\ maxBacklog[s] > cap
               /\ ovfSeen' = [ovfSeen EXCEPT ![s] = TRUE] /\ UNCHANGED cur
-         [] Ev.res = "Timeout" ->          \* never before the timeout elapsed; never once overflow was reported (sticky)
+         [] Ev.res = "Timeout" ->          \* never before the timeout elapsed; never once overflow was reported (sticky);
+                                           \* never while bytes that had fully arrived before the call are still undelivered
+                                           \* (unless the cap may have dropped them, a flush owns the buffer, or teardown runs)
               /\ Ev.vt - MyRecv[5] >= MyRecv[4] /\ ~ovfSeen[s]
+              /\ (MyRecv[6] /\ Waiting(s)) => (maxBacklog[s] > cap \/ lifeCalled \/ \E f \in pendFlush : f[2] = s)
               /\ UNCHANGED <<cur, ovfSeen>>
          [] Ev.res = "ShuttingDown" -> lifeCalled /\ UNCHANGED <<cur, ovfSeen>>
          [] Ev.res = "Cancelled" ->        \* single-waiter contract: another receive or a flush on the session is in flight
               /\ (\E r \in pendRecv \ {MyRecv} : r[2] = s) \/ (\E f \in pendFlush : f[2] = s)
               /\ UNCHANGED <<cur, ovfSeen>>
          [] OTHER -> FALSE
-    /\ UNCHANGED <<arrived, disab, closedAt, maxBacklog, pendFlush>> /\ C04U /\ C02U /\ Keep
+    /\ UNCHANGED <<arrived, arrDone, disab, closedAt, maxBacklog, pendFlush>> /\ C04U /\ C02U /\ Keep
 
 EvModeCall == /\ IsEv("ModeCall")
               /\ pendFlush' = IF Ev.m = "async" THEN pendFlush \cup {<<Ev.t, Ev.s>>} ELSE pendFlush
-              /\ UNCHANGED <<arrived, disab, cur, closedAt, ovfSeen, maxBacklog, pendRecv>> /\ C04U /\ C02U /\ Keep
+              /\ UNCHANGED <<arrived, arrDone, disab, cur, closedAt, ovfSeen, maxBacklog, pendRecv>> /\ C04U /\ C02U /\ Keep
 EvModeRet == /\ IsEv("ModeRet")
              /\ Ev.ok \/ lifeCalled \/ TRUE     \* (a refused switch is allowed by configuration / teardown)
              /\ pendFlush' = pendFlush \ {<<Ev.t, Ev.s>>}
-             /\ UNCHANGED <<arrived, disab, cur, closedAt, ovfSeen, maxBacklog, pendRecv>> /\ C04U /\ C02U /\ Keep
+             /\ UNCHANGED <<arrived, arrDone, disab, cur, closedAt, ovfSeen, maxBacklog, pendRecv>> /\ C04U /\ C02U /\ Keep
 \* the case asserts that nothing may be missing on this session now
 EvExpectAll == /\ IsEv("ExpectAll") /\ AllHanded(Ev.s, arrived[Ev.s])
                /\ C03U /\ C04U /\ C02U /\ Keep
@@ -176,7 +183,7 @@ EvCloseCall == /\ IsEv("CloseCall") /\ stage[Ev.s] = "none"                     
                /\ mustObs' = [mustObs EXCEPT ![Ev.s] = {g \in Tags : obsOf[g] = Ev.s /\ obsSt[g] = "reg"}]
                /\ dataPre' = [dataPre EXCEPT ![Ev.s] = dataTag[Ev.s] # "-"]
                /\ annAtClose' = [annAtClose EXCEPT ![Ev.s] = Ev.s \in handed]
-               /\ UNCHANGED <<arrived, disab, cur, ovfSeen, maxBacklog, pendRecv, pendFlush>>
+               /\ UNCHANGED <<arrived, arrDone, disab, cur, ovfSeen, maxBacklog, pendRecv, pendFlush>>
                /\ UNCHANGED <<obsOf, obsIdx, obsSt, nObs, dataTag, seen>> /\ C04U /\ Keep
 EvGlobalClose == /\ IsEv("GlobalClose") /\ stage[Ev.s] = "start" /\ ~Ev.as
                  /\ Owned(Ev.s)                                                    \* never for a session nobody was given
